@@ -27,6 +27,7 @@ int main(int argc, char** argv) {
 	if (!strcmp(argv[1], "nnls_normal_block3")) x = nnls_normal_block3(S, B, 0, &c);
 	else if (!strcmp(argv[1], "nnls_normal_block")) x = nnls_normal_block(S, B, 0, &c);
 	else if (!strcmp(argv[1], "nnls_normal_block_updown")) x = nnls_normal_block_updown(S, B, 0, &c);
+	else if (!strcmp(argv[1], "nnls_lawson_hanson")) x = nnls_lawson_hanson(S, B, 1e-9, 0, 0, 0, 1, 0, &c);
 	else return 3;
 	if (!x) { printf("solver returned NULL\n"); return 1; }
 	double* xv = (double*)x->x, scale = 1; int bad = 0;
@@ -54,7 +55,7 @@ static int batch(const char* path) {
 		cholmod_sparse* S = cholmod_l_triplet_to_sparse(T, 0, &c); cholmod_l_free_triplet(&T, &c);
 		cholmod_dense* B = cholmod_l_allocate_dense(n, 1, n, CHOLMOD_REAL, &c);
 		for (int i = 0; i < n; i++) ((double*)B->x)[i] = b[i];
-		cholmod_dense* x = !strcmp(solver, "nnls_normal_block3") ? nnls_normal_block3(S, B, 0, &c) : !strcmp(solver, "nnls_normal_block") ? nnls_normal_block(S, B, 0, &c) : nnls_normal_block_updown(S, B, 0, &c);
+		cholmod_dense* x = !strcmp(solver, "nnls_normal_block3") ? nnls_normal_block3(S, B, 0, &c) : !strcmp(solver, "nnls_normal_block") ? nnls_normal_block(S, B, 0, &c) : !strcmp(solver, "nnls_lawson_hanson") ? nnls_lawson_hanson(S, B, 1e-9, 0, 0, 0, 1, 0, &c) : nnls_normal_block_updown(S, B, 0, &c);
 		if (!x) printf("NULL\n"); else { printf("x"); for (int i = 0; i < n; i++) printf(" %.17g", ((double*)x->x)[i]); printf("\n"); cholmod_l_free_dense(&x, &c); }
 		cholmod_l_free_sparse(&S, &c); cholmod_l_free_dense(&B, &c);
 	}
